@@ -8,6 +8,7 @@ import AbraModel.Drv.Sort
 import AbraModel.Drv.CallOrder
 import AbraModel.Drv.Pratt
 import AbraModel.Drv.PrattPrint
+import AbraModel.Drv.TopLevel
 import AbraModel.Drv.Lex
 import AbraModel.Drv.StrOps
 import AbraModel.Drv.SrcMap
@@ -46,6 +47,7 @@ def dispatch (line : String) : String :=
   | "prattfix" :: rest => handlePrattFix rest
   | "prattfold" :: rest => handlePrattFold rest
   | "prattprint" :: rest => handlePrattPrint rest
+  | "toplevel" :: rest => handleTopLevel rest
   | "lex" :: rest => handleLex true rest
   | "lexkinds" :: rest => handleLex false rest
   | "intlit" :: rest => handleIntLit rest
